@@ -4,6 +4,7 @@
 -/
 import KiraModel.Exec.SuiteUnits
 import KiraModel.Exec.SuiteParam
+import KiraModel.Exec.SuiteFxA
 
 open K.Exec
 
@@ -20,6 +21,7 @@ def suiteOf (name : String) : Option Suite :=
   match name with
   | "units" => some (statelessSuite unitsStep)
   | "param" => some { σ := ParamState, init := {}, step := paramStep }
+  | "fxa" => some { σ := FxAState, init := {}, step := fxaStep }
   | _ => none
 
 def tokens (line : String) : List String :=
